@@ -173,6 +173,7 @@ static void op_revive(actor *a, int ui, int pool, int to)
     u->joined = 0;
     u->cancelled = 0;
     u->exited = 0;
+    u->join_seen = 0;
     u->pool = pool;
     u->expect_pool = pool;
     u->cur_pool = pool;
